@@ -178,10 +178,10 @@ def run_case(case):
             lst = lst + [lst[int(rng.integers(len(lst)))], lst[0]]
         kw = {"rescale": rescale, "offset": offset}
 
-        def call(image, arr_, lst_, integ, norm):
+        def call(image, arr_, lst_, integ, norm, kw_=None):
             CTX["cur"] = cur = {"arr": arr_.astype(float), "mode": mode}
             try:
-                myosin.get_intensities(lst_, image, integ, norm, layers, **kw)
+                myosin.get_intensities(lst_, image, integ, norm, layers, **(kw_ or kw))
             except Exception as exc:
                 import traceback
                 mech = "raises"
@@ -194,6 +194,13 @@ def run_case(case):
         base = call(img, arr, lst, integrate, normalize)
         if repeated:
             mon.count("repeated:checked")
+        if base is not None and rng.random() < 0.5:
+            # another channel / another registration of the SAME interface objects: nothing of the first placement may survive
+            f2 = float(rng.uniform(0.6, 0.95))
+            kw2 = {"rescale": [rescale[0] * f2, rescale[1] * f2],
+                   "offset": [offset[0] * f2 + float(rng.uniform(0, 4)), offset[1] * f2 + float(rng.uniform(0, 4))]}
+            call(img, arr, edges_, integrate, None, kw2)
+            mon.count("second-placement:checked")
         if base is not None:
             # linearity in the image (un-normalised statistic)
             b0 = call(img, arr, edges_, integrate, None)
